@@ -13,10 +13,11 @@
     Representation:
     * a replayed / desired schema is the [Name] of its schema object and its tables; every
       table (and every enum type of its columns) POINTS to that object, as after a real
-      inspection / evaluation.  [Planner.plan] copies the replayed schema object
-      ([s1 := *current.Schemas[0]]) and renames the COPY: the replayed tables still point to
-      the original object, which keeps the dev database's name.  [deep = true] is the repaired
-      code (the replayed schema object itself is renamed).
+      inspection / evaluation.  Since fix C16-planner-replay-rename [Planner.plan] renames the
+      replayed schema object ITSELF ([s1 := current.Schemas[0]; s1.Name = s2.Name]): the
+      replayed tables point to it and carry the desired name.  (Before the fix it renamed a
+      copy, [s1 := *current.Schemas[0]], and the replayed tables kept the dev database's name:
+      [plan_from dev], see ReplayProofs.v [Planner_plan_before_fix].)
     * [modified t1 t2] = [tableDiff] returned a non-empty change list (external function).
     * the object changes of [SchemaObjectDiff] (enum types) are [COther]: CheckChangesScope's
       [default: continue] arm; [objs] lists, per object change, the schema name it carries. *)
@@ -62,11 +63,10 @@ Section Diff.
   | PPlanned
   | PRejected (r : scope_res).    (* the error of CheckChangesScope *)
 
-  (* migrate.go: Planner.plan, schema scope; [dev] / [user] = the names of the replayed and of
-     the desired schema object *)
-  Definition Planner_plan (deep : bool) (q : option bytes) (mode : N) (dev user : bytes)
+  (* the schema-scoped planning step when the replayed tables point to a schema object
+     named [owner] *)
+  Definition plan_from (owner : bytes) (q : option bytes) (mode : N) (user : bytes)
              (objs : list bytes) (cur des : list rtab) : plan_res :=
-    let owner := if deep then user else dev in
     let cs := schema_diff owner user objs cur des in
     match cs with
     | [] => PNoPlan
@@ -76,6 +76,13 @@ Section Diff.
         | Some _ => match CheckChangesScope q mode cs with SOk => PPlanned | r => PRejected r end
         end
     end.
+
+  (* migrate.go: Planner.plan, schema scope; [dev] / [user] = the names the replayed and the
+     desired schema object carry when plan is entered.  The replayed object is renamed in
+     place, so whatever [dev] was, its tables now name [user]. *)
+  Definition Planner_plan (q : option bytes) (mode : N) (dev user : bytes)
+             (objs : list bytes) (cur des : list rtab) : plan_res :=
+    plan_from user q mode user objs cur des.
 End Diff.
 
 Definition is_drop (c : change) : bool := match c with CDropTable _ => true | _ => false end.
